@@ -155,6 +155,13 @@ theorem memAgrees_maybeRun (cfg : Cfg) (k : K) (ans : Con) (s : St K) (h : DD.Me
   · exact DD.memAgrees_load _ _ h
   · exact DD.memAgrees_set _ _ _ (DD.memAgrees_load _ _ h)
 
+theorem better_le (cfg : Cfg) (ans old : Con) (h : better cfg ans old = true) : ans.score ≤ old.score := by
+  unfold better at h
+  simp only [Bool.or_eq_true, decide_eq_true_eq, Bool.and_eq_true, beq_iff_eq] at h
+  rcases h with h | ⟨_, h⟩
+  · exact Int.le_of_lt h
+  · exact Int.le_of_eq h
+
 theorem view_maybeRun_other (cfg : Cfg) (k : K) (ans : Con) (s : St K) (k' : K) (hne : k' ≠ k) :
     (maybeRun cfg k ans s).1.dd.view k' = s.dd.view k' := by
   rcases maybeRun_dd cfg k ans s with e | e <;> rw [e]
@@ -201,7 +208,7 @@ theorem maybeRun_overwrite (cfg : Cfg) (k : K) (ans old : Con) (s : St K)
 
 theorem maybeRun_improved_better (cfg : Cfg) (k : K) (ans old : Con) (s : St K)
     (hv : s.dd.view k = some old) (ho : cfg.overwrite = .improved) (hc : cfg.cacheOnly = false)
-    (hlt : ans.score < old.score) :
+    (hlt : better cfg ans old = true) :
     maybeRun cfg k ans s =
       ({ dd := (s.dd.load k).set k ans, searches := s.searches + 1 }, .ok true ans) := by
   have hvk : (s.dd.load k).view k = some old := by rw [DD.view_load]; exact hv
@@ -209,7 +216,7 @@ theorem maybeRun_improved_better (cfg : Cfg) (k : K) (ans old : Con) (s : St K)
 
 theorem maybeRun_improved_worse (cfg : Cfg) (k : K) (ans old : Con) (s : St K)
     (hv : s.dd.view k = some old) (ho : cfg.overwrite = .improved) (hc : cfg.cacheOnly = false)
-    (hge : ¬ ans.score < old.score) :
+    (hge : better cfg ans old = false) :
     maybeRun cfg k ans s =
       ({ dd := s.dd.load k, searches := s.searches + 1 }, .ok false old) := by
   have hvk : (s.dd.load k).view k = some old := by rw [DD.view_load]; exact hv
